@@ -46,8 +46,10 @@ def plan(pid, tier):
                     R("struct2", "struct", k[5:6], n=2),
                     R("target", "target", k[6:7]),
                     R("std1", "std", KINDS, n=1),
+                    R("edenum", "edenum", KINDS, n=1),
                     R("sim", "sim", KINDS, n=4, sim=40)]
         return [R("scalar_full", "scalar", KINDS, vals="full"),
+                R("edenum", "edenum", KINDS, n=2),
                 R("struct2", "struct", KINDS, n=2),
                 R("target", "target", KINDS, tk="pairs"),
                 R("std2", "std", KINDS, n=2),
@@ -67,17 +69,17 @@ def plan(pid, tier):
                 R("sim", "sim", KINDS, n=6, sim=600)]
     if pid == "C22":
         if tier == "quick":
-            return [R("strip", "strip", k[:1], n=2, maxret=2),
-                    R("strip1", "strip", k[1:], n=1, maxret=1)]
-        return [R("strip2", "strip", KINDS, n=2, maxret=2),
-                R("strip3", "strip", k[:1], n=3, maxret=2),
-                R("strip4", "strip", k[2:3], n=4, maxret=1),
-                R("stripr3", "strip", k[3:4], n=2, maxret=3)]
+            return [R("strip", "strip", k[:1], n=2, maxret=1),
+                    R("strip1", "strip", k[1:], n=1, maxret=2)]
+        return [R("strip2", "strip", KINDS, n=2, maxret=1),
+                R("strip2r", "strip", k[:3], n=2, maxret=2),
+                R("strip3", "strip", k[3:4], n=3, maxret=1),
+                R("stripr3", "strip", k[4:5], n=1, maxret=3)]
     raise vf.MachineryError("engine optionlang does not serve " + pid)
 
 
 def case_key(o):
-    return json.dumps([o["kind"], o["tf"], sorted(o["tk"]), sorted(map(tuple, o["ret"])), o["stmts"], o.get("sib", "none")],
+    return json.dumps([o["kind"], o.get("ed", "proto2"), o["tf"], sorted(o["tk"]), sorted(map(tuple, o["ret"])), o["stmts"], o.get("sib", "none")],
                       sort_keys=True, separators=(",", ":"))
 
 
@@ -91,7 +93,7 @@ def shape(v):
 
 def feature(o):
     st = tuple(("".join("x" if p["ext"] else "n" for p in s["path"]), shape(s["v"])) for s in o["stmts"])
-    return (o["mode"], o["kind"], o["ok"], tuple(sorted(o["rules"])), st, o["tf"] != "none",
+    return (o["mode"] + ":" + o.get("ed", "proto2"), o["kind"], o["ok"], tuple(sorted(o["rules"])), st, o["tf"] != "none",
             tuple(sorted(r[1] for r in o["ret"])), o.get("sib", "none"), len(o["bad"]), len(o["ubad"]))
 
 
@@ -115,6 +117,8 @@ def render_stmt(s):
 
 def brief(o):
     d = {"kind": o["kind"], "options": [render_stmt(s) for s in o["stmts"]], "ok": o["ok"], "rules": o["rules"]}
+    if o.get("ed", "proto2") != "proto2":
+        d["edition2023_enum_E"] = o["ed"]
     if o["tf"] != "none":
         d["targets"] = {o["tf"]: o["tk"]}
     if o["ret"]:
@@ -302,8 +306,9 @@ def run(pid, tier, replay=None):
         "outside the exported domain (filtered inside Next): '-0', integers 0/1 for bool inside a message literal, enum numbers for "
         "descriptor.proto's own enums inside a literal, empty list literals, two map entries with the same key; not generated: hex / "
         "octal literals (C14), non-ASCII strings, unqualified extension names in literals, lower-case group names in literals, "
-        "required fields, oneof members, Any expansion",
-        "proto2 file, package p, one host element per file (plus one sibling of the same kind in C22)",
+        "required fields, oneof members; editions only as one family (edition 2023 file, enum E open / closed by feature, enum values "
+        "by number and name)",
+        "proto2 file (edition 2023 in the edenum family), package p, one host element per file (plus one sibling of the same kind in C22)",
         "C22: an options message whose set fields all have source retention becomes absent together with every location under it "
         "(documented in options/source_retention_options.go); a nested message that loses all fields stays as an empty message (protoc)",
         "float values are compared with the nearest float32 / float64 of the decimal text"],
